@@ -40,6 +40,10 @@ type genLine struct {
 	Err bool `json:"err"`
 }
 
+// maxHangs: a parser that does not terminate costs 10 s (and a spinning goroutine) per scenario; a handful of them is verdict
+// enough, the driver stops generating scenarios after that
+const maxHangs = 5
+
 var errInjected = errors.New("injected reader error")
 var errCallback = errors.New("injected callback error")
 
@@ -303,6 +307,9 @@ func Main(args []string) error {
 				}
 				return 1
 			}
+			if st.hangs >= maxHangs {
+				break
+			}
 			for _, buf0 := range []int{0, 1024} {
 				i = 0
 				runOne(w, scenario{data: stream, sched: sched, eofJoined: g.EofJoined, errAt: -1, cbErrAt: -1,
@@ -338,7 +345,7 @@ func Main(args []string) error {
 
 	// (V) synthetic streams incl. corrupted size fields, truncation, injected errors
 	types := []string{"ftyp", "moov", "styp", "moof", "mdat", "free", "sidx", "emsg"}
-	for s := 0; s < *nRand; s++ {
+	for s := 0; s < *nRand && st.hangs < maxHangs; s++ {
 		nb := 1 + rng.Intn(6)
 		bs := make([]box, nb)
 		for i := range bs {
@@ -454,7 +461,7 @@ func Main(args []string) error {
 	reals = append(reals, append(append([]byte{}, reals[2]...), reals[2]...))
 	names = append(names, "3_chunked x2")
 	for ri, d := range reals {
-		for k := 0; k < *nReal; k++ {
+		for k := 0; k < *nReal && st.hangs < maxHangs; k++ {
 			data := d
 			if k%5 == 4 {
 				data = d[:rng.Intn(len(d)+1)]
